@@ -447,6 +447,28 @@ def handle (j : Json) : R Json := do
   | .str "evaluate" => do
     let s ← getStrOpt (← field j "s")
     pure (Json.mkObj [("evaluate", jres jcval (evaluate s)), ("type", jres (fun t => Json.str (ctypeName t)) (ctype s))])
+  | .str "loads" => do
+    -- penman.loads / load : all graphs of a text in a given container
+    let m ← getModel (fieldD j "model" .null)
+    let toks ← match fieldD j "container" "str" with
+      | .str "file" => do pure (lexLines cfg cfg.penmanOrder (fileLines (← getStr (← field j "s"))))
+      | _ => getToks j cfg.penmanOrder
+    let (trees, err) := iterparseToks utables.isSpace toks
+    let gs := trees.map (interpret utables.isAlpha m)
+    -- the generator raises at the first failing graph; earlier graphs are lost to `list(...)`
+    match err, gs.find? (fun r => match r with | .error _ => true | .ok _ => false) with
+    | _, some (.error e) => pure (Json.mkObj [("err", jerr e)])
+    | some e, _ => pure (Json.mkObj [("err", jerr e)])
+    | none, _ => pure (Json.mkObj [("ok", Json.arr (gs.filterMap (fun r => match r with | .ok g => some (jgraph g) | .error _ => none)).toArray)])
+  | .str "dumps" => do
+    let m ← getModel (fieldD j "model" .null)
+    let gs ← (← getArr (← field j "graphs")).mapM getGraph
+    let ind ← getIndent (fieldD j "indent" (Json.num (-1)))
+    let c ← getBool (fieldD j "compact" (.bool false))
+    let rs := gs.map fun g => (configure m g none).map (fun t => format t ind c)
+    match rs.find? (fun r => match r with | .error _ => true | .ok _ => false) with
+    | some (.error e) => pure (Json.mkObj [("err", jerr e)])
+    | _ => pure (Json.mkObj [("ok", jstr (joinStr ['\n', '\n'] (rs.filterMap (fun r => match r with | .ok x => some x | .error _ => none))))])
   | .str "main" => do
     let m ← getModel (fieldD j "model" .null)
     let o ← getOpts (fieldD j "opts" (Json.mkObj []))
